@@ -4,6 +4,12 @@ import StraxModel.Lemmas.Peaks
   Property theorems over the model `Strax.Peaks` (Model/Peaks.lean); helper lemmas in Lemmas/Peaks.lean.
   Every theorem quantifies over ALL inputs of the modelled function (no size bound); hypotheses are
   decidable predicates and come with an `example` that a concrete non-trivial instance satisfies them.
+  Naming: `…_partial` = holds only under a hypothesis that excludes part of the property's quantifier (the docstring
+  says which part, and names the counterexample / open finding if the full statement is false); `…_counterexample`,
+  `…_old_counterexample`, `…_witness` = concrete evaluations (`decide`). 43 theorems: 21 full, 11 partial, 11 witnesses.
+  Open findings behind the partial ones: D11 (down-sampling tail / shortened split fragments), find_peaks duration cut
+  (overlap, left_extension counted twice). Model parts without their own driver op: `naturalBreaksYields` (see
+  `natural_breaks_tiles_partial`).
 -/
 namespace Strax.C19
 open Strax Strax.Peaks
@@ -145,10 +151,12 @@ theorem peak_spans_hits (P : FPParams) (toPe : List Rat) (nCh nS : Nat) (c : Can
   · omega
   · have := (List.pairwise_cons.mp hsorted).1 x hx; omega
 
-/-- time order and disjointness of ALL closed clusters for time-sorted hits: starts are ordered; and if no
+/-- **clusters_ordered_disjoint_partial** — partial: the disjointness half holds only without a `max_duration` cut
+(`SeparatedFar`); with such a cut clusters overlap (`duration_cut_overlap_counterexample`, open finding). The ordering
+half is unconditional. Time order and disjointness of ALL closed clusters for time-sorted hits: starts are ordered; and if no
 `max_duration` cut happened (`SeparatedFar`), any later cluster starts at least `gap − left − right`
 (> 0 by the assertion of `find_peaks`) after the extended end of any earlier one -/
-theorem clusters_ordered_disjoint (P : FPParams) (toPe : List Rat) (nCh : Nat) (hits : List Hit)
+theorem clusters_ordered_disjoint_partial (P : FPParams) (toPe : List Rat) (nCh : Nat) (hits : List Hit)
     (hsorted : hits.Pairwise (fun a b => a.time ≤ b.time)) (hne : hits ≠ []) :
     (scanHits P toPe nCh none hits).Pairwise (fun c c' => c.time ≤ c'.time) ∧
     (SeparatedFar P (scanHits P toPe nCh none hits) →
@@ -182,7 +190,7 @@ theorem peaks_ordered_disjoint_partial (P : FPParams) (toPe : List Rat) (nCh nS 
     · simp at h
     · have hne : hits ≠ [] := by simpa using he
       obtain ⟨hp, _⟩ := finishAll_ok P nS _ peaks h
-      obtain ⟨ho, hdj⟩ := clusters_ordered_disjoint P toPe nCh hits hsorted hne
+      obtain ⟨ho, hdj⟩ := clusters_ordered_disjoint_partial P toPe nCh hits hsorted hne
       have hfl := scanHits_flatten P toPe nCh hits none hne
       simp only [membersOf, List.nil_append] at hfl
       have hinv := scanHits_inv P toPe nCh hits none trivial
@@ -230,12 +238,12 @@ example : OnGrid 1 [⟨0, 2, 1, 0, 3, []⟩, ⟨3, 1, 1, 1, 1, []⟩, ⟨20, 1, 
 
 /-! ## _split_peaks: the fragments tile the parent -/
 
-/-- **split_tiles_parent** — about `PeakSplitter._split_peaks` itself, i.e. the fragments BEFORE `split_peaks` re-sums
+/-- **split_tiles_parent_partial** — partial: about `PeakSplitter._split_peaks` itself, i.e. the fragments BEFORE `split_peaks` re-sums
 them (`sum_waveform` may down-sample a fragment again: `split_resummed_*` below). For every list of yielded split indices: if `_split_peaks` accepts it (no
 "invalid peak" error) and the parent's `dt` is a multiple of the original `dt`, the fragments start at the
 parent's start, follow each other without gap or overlap, are non-empty, and end at the last split index;
 when the splitter closes with `len(w)` (as both strax splitters do now) they end at the parent's end. -/
-theorem split_tiles_parent (p : Peak) (origDt : Int) (splits : List Int) (frags : List Frag)
+theorem split_tiles_parent_partial (p : Peak) (origDt : Int) (splits : List Int) (frags : List Frag)
     (hdiv : origDt ∣ p.dt) (h : splitOne p.time p.dt origDt 0 splits = .ok frags) :
     Tiles frags p.time (p.time + lastSplit 0 splits * p.dt) ∧
     (lastSplit 0 splits = p.length → Tiles frags p.time p.endt) := by
@@ -252,19 +260,25 @@ theorem split_never_overlaps (p : Peak) (origDt : Int) (splits : List Int) (frag
     (hd : 0 < origDt) (h : splitOne p.time p.dt origDt 0 splits = .ok frags) : NoOverlap frags p.time := by
   simpa using splitOne_noOverlap p.time p.dt origDt hd splits 0 frags h
 
-/-- the natural-breaks splitter as it is now (closing index `len(w)`) tiles the parent -/
-theorem natural_breaks_tiles (p : Peak) (origDt maxI : Int) (frags : List Frag) (hdiv : origDt ∣ p.dt)
+/-- **natural_breaks_tiles_partial** — partial twice over: one splitter, and the fragments BEFORE re-summing (see
+`split_resummed_tiles_partial`). `naturalBreaksYields` has no driver op of its own: the position `maxI` of the split
+(argmax of the goodness of split) is abstract; the yielded structure `[maxI, len(w), NO_MORE_SPLITS]` is tied to the code
+only through the end-to-end component `split_peaks/real_splitters` (oracle: the fragments of the real
+`NaturalBreaksSplitter` tile the parent). The natural-breaks splitter as it is now (closing index `len(w)`) tiles: -/
+theorem natural_breaks_tiles_partial (p : Peak) (origDt maxI : Int) (frags : List Frag) (hdiv : origDt ∣ p.dt)
     (hm : 0 ≤ maxI) (hl : 0 ≤ p.length)
     (h : splitOne p.time p.dt origDt 0 (naturalBreaksYields true p.length maxI true) = .ok frags) :
     Tiles frags p.time p.endt := by
-  refine (split_tiles_parent p origDt _ frags hdiv h).2 ?_
+  refine (split_tiles_parent_partial p origDt _ frags hdiv h).2 ?_
   have h1 : maxI ≠ NO_MORE_SPLITS := by unfold NO_MORE_SPLITS; omega
   have h2 : p.length ≠ NO_MORE_SPLITS := by unfold NO_MORE_SPLITS; omega
   simp [naturalBreaksYields, lastSplit, h1, h2]
 
-/-- the local-minimum splitter (`localMinimumYields` = everything `LocalMinimumSplitter.find_split_points` yields)
+/-- **local_minimum_tiles_partial** — partial: one splitter, fragments BEFORE re-summing (`split_resummed_tiles_partial`);
+`localMinimumYields` is tied by the correspondence component `local_minimum_split_points` (op `c19.lmsplit`).
+The local-minimum splitter (`localMinimumYields` = everything `LocalMinimumSplitter.find_split_points` yields)
 closes with `len(w)` whenever it yields a split at all, so its fragments tile the parent -/
-theorem local_minimum_tiles (p : Peak) (origDt' : Int) (w : List Rat) (minHeight minRatio : Rat)
+theorem local_minimum_tiles_partial (p : Peak) (origDt' : Int) (w : List Rat) (minHeight minRatio : Rat)
     (frags : List Frag) (hdiv : origDt' ∣ p.dt) (hw : (w.length : Int) = p.length)
     (h : splitOne p.time p.dt origDt' 0 (localMinimumYields w minHeight minRatio) = .ok frags) :
     frags = [] ∨ Tiles frags p.time p.endt := by
@@ -273,7 +287,7 @@ theorem local_minimum_tiles (p : Peak) (origDt' : Int) (w : List Rat) (minHeight
     rw [hno] at h
     simpa [splitOne] using h.symm
   · right
-    exact (split_tiles_parent p origDt' _ frags hdiv h).2 (by rw [hclose, hw])
+    exact (split_tiles_parent_partial p origDt' _ frags hdiv h).2 (by rw [hclose, hw])
 
 /-- **split_resummed_never_overlaps** — end-to-end reading of "splitting tiles the parent" (`split_peaks` re-sums every
 fragment; `Frag.resummed nS` is what `store_downsampled_waveform` then does to its time span, `resummed_eq_store`):
@@ -316,7 +330,7 @@ theorem split_resummed_tiles_partial (p : Peak) (origDt : Int) (nS : Nat) (split
     (hdiv : origDt ∣ p.dt) (hl : lastSplit 0 splits = p.length) (hns : NoShortening nS frags)
     (h : splitOne p.time p.dt origDt 0 splits = .ok frags) :
     Tiles (frags.map (Frag.resummed nS)) p.time p.endt :=
-  Tiles_resummed nS frags p.time p.endt hns ((split_tiles_parent p origDt splits frags hdiv h).2 hl)
+  Tiles_resummed nS frags p.time p.endt hns ((split_tiles_parent_partial p origDt splits frags hdiv h).2 hl)
 
 /-- a down-sampled parent (`8 × 3 ns` = `[0,24)`, digitizer dt 1, 8-sample buffer) split at sample 3: `_split_peaks`
 makes fragments of 9 and 15 samples that tile `[0,24)`; re-summed they become `4 × 2 ns = [0,8)` and
@@ -633,11 +647,12 @@ example : computeIndexOfFraction [1, 0, 3] 3 4 [1/4, 1/2, 1] = [1, 7/3, 3] := by
 
 /-! ## compute_widths -/
 
-/-- **compute_widths_spec.** With `fr = widthFractions n_widths` (ascending, `2i+1` entries, symmetric about 1/2:
-`width_fractions_5`, `width_fractions_11`) and the area-fraction times `t_j = index_of_fraction(fr)[j]·dt` (each the
+/-- **compute_widths_spec_partial** — partial: under `hodd` (the fraction list has an odd number `2i+1` of entries), shown
+for `n_widths` 5 and 11 by the witnesses below but not proved for every `n_widths`. With `fr = widthFractions n_widths` (ascending, `2i+1` entries, symmetric about 1/2:
+`width_fractions_5_witness`, `width_fractions_11_witness`) and the area-fraction times `t_j = index_of_fraction(fr)[j]·dt` (each the
 defining first crossing, `index_of_fraction_spec`): median time = `t_i`, width `k` = `t_{i+k} − t_{i−k}` (the time
 between the `1/2 − w_k/2` and `1/2 + w_k/2` area fractions), area decile `k` from midpoint = `t_{2k} − t_i`. -/
-theorem compute_widths_spec (p : Peak) (nW i : Nat) (hodd : (widthFractions nW).length = 2 * i + 1) :
+theorem compute_widths_spec_partial (p : Peak) (nW i : Nat) (hodd : (widthFractions nW).length = 2 * i + 1) :
     let times := (indexOfFraction p (widthFractions nW)).map (· * (p.dt : Rat))
     (computeWidths p nW).1 = times.getD i 0 ∧
     (∀ k, k ≤ i → (computeWidths p nW).2.1[k]? = some (times.getD (i + k) 0 - times.getD (i - k) 0)) ∧
@@ -645,8 +660,8 @@ theorem compute_widths_spec (p : Peak) (nW i : Nat) (hodd : (widthFractions nW).
   computeWidths_spec p nW i hodd
 
 /-- the fractions for `n_widths = 5` (harness) and `11` (strax default): `k/8` resp. `k/20`, symmetric about 1/2 -/
-theorem width_fractions_5 : widthFractions 5 = [0, 1/8, 1/4, 3/8, 1/2, 5/8, 3/4, 7/8, 1] := by decide +kernel
-theorem width_fractions_11 : widthFractions 11 = (List.range 21).map (fun (k : Nat) => (k : Rat) / 20) := by decide +kernel
+theorem width_fractions_5_witness : widthFractions 5 = [0, 1/8, 1/4, 3/8, 1/2, 5/8, 3/4, 7/8, 1] := by decide +kernel
+theorem width_fractions_11_witness : widthFractions 11 = (List.range 21).map (fun (k : Nat) => (k : Rat) / 20) := by decide +kernel
 
 example : computeWidths ⟨0, 3, 10, 4, [], 0, 0, [1, 0, 3]⟩ 5
     = (70/3, [0, 10/3, 50/3, 70/3, 30], [-70/3, -40/3, 0, 10/3, 20/3]) := by decide +kernel
